@@ -635,10 +635,15 @@ def _run_bounded(items, M, body, max_decode_rejections=2):
     def body2(I, h):
         orig = I.ctx.decide
         def decide(cond, key=None):
+            if z3.is_app(cond) and cond.decl().name() == 'decode_accepts' and getattr(I.ctx, 'rej', 0) >= max_decode_rejections:
+                # beyond the unrolling bound only the run in which EVERY candidate is rejected is followed (no fork): a sampler whose
+                # loop is bounded must not fall out of it with an unvalidated candidate; an unbounded loop ends at the step cap
+                I.ctx.rej += 1
+                if I.ctx.rej > 1100: raise mirsym.PathEnd('rejection loop bound')
+                return False
             r = orig(cond, key)
             if z3.is_app(cond) and cond.decl().name() == 'decode_accepts' and r is False:
                 I.ctx.rej = getattr(I.ctx, 'rej', 0) + 1
-                if I.ctx.rej > max_decode_rejections: raise mirsym.PathEnd('rejection loop bound')
             return r
         I.ctx.decide = decide
         return body(I, h)
